@@ -3,7 +3,7 @@
 #   tools/seedcheck.sh <seed-dir (with patch.diff and demo/)> <demo crate> <demo features or -> <property> [<property>...]
 set -u
 SD="$1"; CRATE="$2"; FEAT="$3"; shift 3
-S=/tmp/zkseed
+S="${ZKSEED_DIR:-/tmp/zkseed}"
 mkdir -p $S
 rsync -a --delete --exclude target --exclude .git /repo/ $S/repo/
 cd $S/repo
